@@ -1230,6 +1230,7 @@ def run(ctx):
     fam = {}
     stage_fired = {s: 0 for s in STAGES}
     dist_fired = 0
+    rh3_fired = 0  # three-object programs (relations with different targets) pruned by relative heading
     shrunk = feasible_programs = judged = evals = 0
     totals = {}
     samples = []
@@ -1244,6 +1245,8 @@ def run(ctx):
             stage_fired[s] += 1
         if "relheading" in r["stages"] and r["id"].find("dist") >= 0:
             dist_fired += 1
+        if "relheading" in r["stages"] and r["family"] == "rh3":
+            rh3_fired += 1
         shrunk += 1 if r["shrunk"] else 0
         feasible_programs += 1 if r["feasible"] else 0
         if not r["feasible"]:
@@ -1273,6 +1276,8 @@ def run(ctx):
             raise HarnessError(f"vacuous: {s} pruning never fired")
     if dist_fired == 0:
         raise HarnessError("vacuous: no relative-heading pruning driven by a distance bound")
+    if rh3_fired == 0:
+        raise HarnessError("vacuous: no three-object program was pruned by relative heading")
     slow.sort(reverse=True)
     ctx.cov.update(
         evaluations=evals,
@@ -1282,7 +1287,7 @@ def run(ctx):
         programs_with_accepted_scene=feasible_programs,
         programs_without_accepted_scene=sorted(infeasible_ids)[:40],
         programs_where_pruning_shrank_region=shrunk,
-        pruning_fired=dict(stage_fired, distance_bound=dist_fired),
+        pruning_fired=dict(stage_fired, distance_bound=dist_fired, relheading_with_relations_to_two_targets=rh3_fired),
         base_points_judged=judged,
         skipped_touching=totals.get("skipped_touching", 0),
         counters=totals,
